@@ -41,6 +41,9 @@ def _attach(pid, run):
     elif pid == "C17":
         from vmon.monitors import math as mm
         mm.install(run, first=4, every=200)
+    elif pid in ("C03", "C11", "C12"):
+        from vmon.monitors import material
+        material.attach_insitu(run, every=7)
     elif pid == "C18":
         from vmon.checks import C18
         C18.attach_hooks(run)
